@@ -280,6 +280,37 @@ def rewrite_format(text, nth, log):
     return text[:m.start()] + out + '\n' * nl + text[pc + 1:]
 
 
+def rewrite_mapindex(text, var, log):
+    n = 0
+    while True:
+        msk = lex.mask(text)
+        m = None
+        for mm in re.finditer(r'(&\s*)?\b%s\s*\[' % re.escape(var), msk):
+            # not a field of something else (`x.var[..]`) and not a declaration
+            pre = msk[:mm.start()].rstrip()
+            if pre.endswith('.') or pre.endswith('let') or pre.endswith('mut'):
+                continue
+            m = mm
+            break
+        if not m:
+            break
+        bo = msk.index('[', m.start())
+        bc = lex.match_bracket(msk, bo)
+        inner = text[bo + 1:bc]
+        amp = m.group(1) is not None
+        after = msk[bc + 1:bc + 2]
+        core = '%s.get(%s).expect("no entry found for key")' % (var, inner.strip())
+        if not amp and after != '.':
+            core = '(*%s)' % core
+        nl = text.count('\n', m.start(), bc + 1) - core.count('\n')
+        text = text[:m.start()] + core + '\n' * max(nl, 0) + text[bc + 1:]
+        n += 1
+        if n > 50:
+            raise ExtractError('mapindex: too many rewrites')
+    log.append(('D16', '%d map index expression(s) on `%s` rewritten to get(..).expect(..)' % (n, var), 0))
+    return text
+
+
 def _apply_block(text, first_line, relpath, directives, tmpl_file, log, stub):
     """Return list of Line for the function text with insertions applied."""
     # D19: `fn f(mut self, ..) { B }`  =>  `fn f(self, ..) { let mut _self = self; B[self := _self] }`
@@ -309,6 +340,12 @@ def _apply_block(text, first_line, relpath, directives, tmpl_file, log, stub):
     for d in directives:
         if d['kind'] == 'uncontinue':
             text = rewrite_continue(text, log)
+    # D16 (general form): every `VAR[expr]` on the named map variables becomes std's definition of `Index`
+    # for maps, `VAR.get(expr).expect("no entry found for key")` (a leading `&` is absorbed; a bare use is dereferenced)
+    for d in directives:
+        if d['kind'] == 'mapindex':
+            for var in d['vars']:
+                text = rewrite_mapindex(text, var, log)
     # 0. D10: format!("..{a}..", a = X) => explicit concatenation of literal pieces and Display renderings
     for d in directives:
         if d['kind'] == 'fmt':
@@ -612,6 +649,8 @@ def assemble(unit_name, repo=None):
                         cur = {'kind': 'mutself', 'lines': []}
                     elif c2 == 'uncontinue':
                         cur = {'kind': 'uncontinue', 'lines': []}
+                    elif c2 == 'mapindex':
+                        cur = {'kind': 'mapindex', 'vars': r2.split(), 'lines': []}
                     elif c2 == 'bind_tail':
                         cur = {'kind': 'bind_tail', 'name': r2.split()[0] if r2.split() else '_ret', 'lines': []}
                     elif c2 == 'fmt':
